@@ -36,7 +36,9 @@ def replay(case):
         return {"violates": False, "observed": dict(obs, note="does not parse")}
     if norm(g) != norm(_MD.render(d)):
         return {"violates": False, "observed": dict(obs, note="C03 precondition false")}
-    code, has_container, has_html = rrule.structure(_MD.parse(d))
+    mtoks = _MD.parse(d)
+    code, has_container, has_html = rrule.structure(mtoks)
+    rid = "md013" if rule == "md013x" else rule
     sets = []
     if rule == "md009":
         cfg = {"br_spaces": v["br"], "strict": bool(v["strict"])}
@@ -45,16 +47,18 @@ def replay(case):
     elif rule == "md013":
         n = v["limit"]
         cfg = {"line_length": n, "heading_line_length": n, "code_block_line_length": n, "strict": bool(v["strict"])}
+    elif rule == "md013x":
+        cfg = {"line_length": v["limit"], "heading_line_length": v["hlimit"], "code_block_line_length": v["climit"], "code_blocks": bool(v["code_blocks"]), "headings": bool(v["headings"])}
     else:
         cfg = {}
     for k, val in cfg.items():
-        sets += ["-s", f"plugins.{rule}.{k}=" + (("$!" + str(val)) if isinstance(val, bool) else ("$#" + str(val)))]
+        sets += ["-s", f"plugins.{rid}.{k}=" + (("$!" + str(val)) if isinstance(val, bool) else ("$#" + str(val)))]
     with Sandbox() as sb:
         sb.write("/vfs/f.md", d)
-        o = real_main(sb, sets + rule_args("only:" + rule) + ["scan", "/vfs/f.md"])
+        o = real_main(sb, sets + rule_args("only:" + rid) + ["scan", "/vfs/f.md"])
     if any("Error" in e for e in o["err"]):
         return {"violates": False, "observed": dict(obs, err=o["err"][:1])}
-    got = sorted({f[1] for f in o["fails"] if f[3].lower() == rule})
+    got = sorted({f[1] for f in o["fails"] if f[3].lower() == rid})
     lines = rrule.split_lines(d)
     if rule == "md009":
         want = rrule.md009(lines, code, cfg["br_spaces"], cfg["strict"])
@@ -66,6 +70,10 @@ def replay(case):
         want = rrule.md012(lines, code, cfg["maximum"])
     elif rule == "md013":
         want = rrule.md013(lines, cfg["line_length"], cfg["strict"])
+    elif rule == "md013x":
+        if has_container or has_html:
+            return {"violates": False, "observed": dict(obs, note="containers/html: outside the MD013 special-elements oracle")}
+        want = rrule.md013x(lines, code, rrule.heading_lines(mtoks), (cfg["line_length"], cfg["heading_line_length"], cfg["code_block_line_length"]), cfg["code_blocks"], cfg["headings"], False)
     elif rule == "md047":
         if not d:
             return {"violates": False, "observed": obs}
